@@ -15,24 +15,45 @@ import (
 	"strings"
 )
 
-const shimBase = "github.com/lmorg/murex/zz_verif/"
+const shimBase = "verif/shim/"
 
-type stats struct{ files, syncImports, goStmts, recvs, sends, sleeps, selects, rangeChan int }
+type stats struct {
+	Files, SyncImports, GoStmts, Recvs, Sends, Sleeps, Selects, Closes int
+	Unmodelled                                                        []string
+}
 
 var st stats
 var unmodelled []string
 
 func main() {
+	if len(os.Args) < 4 {
+		fmt.Fprintln(os.Stderr, "usage: mkoverlay <repo> <outdir> <shimdir> [hooksdir]")
+		os.Exit(2)
+	}
 	repo, out, shim := os.Args[1], os.Args[2], os.Args[3]
+	hooks := ""
+	if len(os.Args) > 4 {
+		hooks = os.Args[4]
+	}
+	// an optional base overlay (mutant demonstration): files listed there replace the tree's files
+	base := map[string]string{}
+	if b := os.Getenv("VERIF_OVERLAY"); b != "" {
+		var o struct{ Replace map[string]string }
+		data, err := os.ReadFile(b)
+		if err == nil && json.Unmarshal(data, &o) == nil {
+			base = o.Replace
+		}
+	}
 	replace := map[string]string{}
 	os.RemoveAll(out)
+	os.MkdirAll(out, 0755)
 	filepath.Walk(repo, func(p string, info os.FileInfo, err error) error {
 		if err != nil {
 			return nil
 		}
 		if info.IsDir() {
 			n := info.Name()
-			if n == ".git" || n == "vendor" || n == "node_modules" || n == "docs" || n == "gen" || n == "images" {
+			if n == ".git" || n == "vendor" || n == "node_modules" || n == "docs" || n == "gen" || n == "images" || n == "zz_verif" {
 				return filepath.SkipDir
 			}
 			return nil
@@ -40,11 +61,15 @@ func main() {
 		if !strings.HasSuffix(p, ".go") || strings.HasSuffix(p, "_test.go") {
 			return nil
 		}
-		src, _ := os.ReadFile(p)
+		srcPath := p
+		if b, ok := base[p]; ok {
+			srcPath = b
+		}
+		src, _ := os.ReadFile(srcPath)
 		res, changed, err := rewrite(p, src)
 		if err != nil {
 			fmt.Fprintln(os.Stderr, "parse error", p, err)
-			return nil
+			os.Exit(2)
 		}
 		if changed {
 			rel, _ := filepath.Rel(repo, p)
@@ -52,24 +77,37 @@ func main() {
 			os.MkdirAll(filepath.Dir(dst), 0755)
 			os.WriteFile(dst, res, 0644)
 			replace[p] = dst
-			st.files++
+			st.Files++
+		} else if srcPath != p {
+			replace[p] = srcPath
 		}
 		return nil
 	})
-	// virtual shim packages
+	// virtual shim packages under <repo>/zz_verif/
 	filepath.Walk(shim, func(p string, info os.FileInfo, err error) error {
-		if err == nil && !info.IsDir() && strings.HasSuffix(p, ".go") {
+		if err == nil && !info.IsDir() && (strings.HasSuffix(p, ".go") || strings.HasSuffix(p, ".s")) {
 			rel, _ := filepath.Rel(shim, p)
 			replace[filepath.Join(repo, "zz_verif", rel)] = p
 		}
 		return nil
 	})
+	// verif-tagged files added to murex packages (read-only state dumpers)
+	if hooks != "" {
+		filepath.Walk(hooks, func(p string, info os.FileInfo, err error) error {
+			if err == nil && !info.IsDir() && strings.HasSuffix(p, ".go") {
+				rel, _ := filepath.Rel(hooks, p)
+				replace[filepath.Join(repo, rel)] = p
+			}
+			return nil
+		})
+	}
 	b, _ := json.MarshalIndent(map[string]any{"Replace": replace}, "", " ")
 	os.WriteFile(filepath.Join(out, "overlay.json"), b, 0644)
-	fmt.Printf("%+v\n", st)
-	for _, u := range unmodelled {
-		fmt.Println("unmodelled:", u)
-	}
+	st.Unmodelled = unmodelled
+	sb, _ := json.MarshalIndent(st, "", " ")
+	os.WriteFile(filepath.Join(out, "stats.json"), sb, 0644)
+	fmt.Printf("mkoverlay: %d files rewritten, sync=%d go=%d recv=%d send=%d sleep=%d close=%d select=%d (blocking %d)\n",
+		st.Files, st.SyncImports, st.GoStmts, st.Recvs, st.Sends, st.Sleeps, st.Closes, st.Selects, len(unmodelled))
 }
 
 type rw struct {
@@ -99,7 +137,7 @@ func rewrite(path string, src []byte) ([]byte, bool, error) {
 			imp.Name = ast.NewIdent(name)
 			imp.Path.Value = strconv.Quote(shimBase + "vsync")
 			r.changed = true
-			st.syncImports++
+			st.SyncImports++
 		case "time":
 			r.timeName = "time"
 			if imp.Name != nil {
@@ -145,7 +183,7 @@ func (r *rw) walkNode(n ast.Node) {
 		case *ast.CommClause:
 			x.Body = r.stmts(x.Body)
 		case *ast.SelectStmt:
-			st.selects++
+			st.Selects++
 			hasDefault := false
 			for _, c := range x.Body.List {
 				if c.(*ast.CommClause).Comm == nil {
@@ -183,13 +221,13 @@ func (r *rw) stmts(list []ast.Stmt) []ast.Stmt {
 		case *ast.GoStmt:
 			list[i] = r.goStmt(x)
 		case *ast.SendStmt:
-			st.sends++
+			st.Sends++
 			r.changed, r.needChan = true, true
 			list[i] = &ast.ExprStmt{X: call("zzvchan", "Send", x.Chan, x.Value)}
 		case *ast.AssignStmt:
 			if len(x.Lhs) == 2 && len(x.Rhs) == 1 {
 				if u, ok := x.Rhs[0].(*ast.UnaryExpr); ok && u.Op == token.ARROW {
-					st.recvs++
+					st.Recvs++
 					r.changed, r.needChan = true, true
 					x.Rhs[0] = call("zzvchan", "Recv2", u.X)
 				}
@@ -206,7 +244,7 @@ func call(pkg, fn string, args ...ast.Expr) *ast.CallExpr {
 var builtins = map[string]bool{"close": true, "panic": true, "print": true, "println": true, "delete": true}
 
 func (r *rw) goStmt(g *ast.GoStmt) ast.Stmt {
-	st.goStmts++
+	st.GoStmts++
 	r.changed, r.needSched = true, true
 	c := g.Call
 	if fl, ok := c.Fun.(*ast.FuncLit); ok && len(c.Args) == 0 {
@@ -248,14 +286,19 @@ func (r *rw) exprPass(root ast.Node) {
 		switch x := (*e).(type) {
 		case *ast.UnaryExpr:
 			if x.Op == token.ARROW {
-				st.recvs++
+				st.Recvs++
 				r.changed, r.needChan = true, true
 				*e = call("zzvchan", "Recv", x.X)
 			}
 		case *ast.CallExpr:
+			if id, ok := x.Fun.(*ast.Ident); ok && id.Name == "close" && id.Obj == nil && len(x.Args) == 1 {
+				st.Closes++
+				r.changed, r.needChan = true, true
+				x.Fun = &ast.SelectorExpr{X: ast.NewIdent("zzvchan"), Sel: ast.NewIdent("Close")}
+			}
 			if sel, ok := x.Fun.(*ast.SelectorExpr); ok && r.timeName != "" {
 				if id, ok := sel.X.(*ast.Ident); ok && id.Name == r.timeName && sel.Sel.Name == "Sleep" && id.Obj == nil {
-					st.sleeps++
+					st.Sleeps++
 					r.changed, r.needTime = true, true
 					x.Fun = &ast.SelectorExpr{X: ast.NewIdent("zzvtime"), Sel: ast.NewIdent("Sleep")}
 				}
